@@ -407,7 +407,8 @@ impl RunState {
     }
 
     fn jsr(&mut self, instr: u16) {
-        *self.reg_mut(7) = self.pc;
+        // Link value is saved first, but written last: `JSRR R7` must jump to the old R7
+        let link = self.pc;
         if instr & 0x800 == 0 {
             // reg
             let br = (instr >> 6) & 0b111;
@@ -416,6 +417,7 @@ impl RunState {
             // offs
             self.pc = self.pc.wrapping_add(Self::s_ext(instr, 11))
         }
+        *self.reg_mut(7) = link;
     }
 
     fn ld(&mut self, instr: u16) {
